@@ -1,4 +1,4 @@
-import StorageModel.Tx.Spec
+import StorageModel.Tx.Group
 import StorageModel.Base.Bytes
 /-
   Tx/Wire — line protocol of the C07 / C08 drivers: case parser and canonical rendering of
@@ -12,6 +12,9 @@ import StorageModel.Base.Bytes
          | "c" typed nveto (kind id)*        typed: t u (T U: vetoes with a RecordNotFoundError; o: typed, its vetoes
                                               apply only while the body runs for the first time)   kind: c u d
   tx    := "tx" mode reuse nsteps step*      mode: u b r (r: caller-managed bbolt transaction + NewTxMutateContext)   reuse: 0 1
+         | "tx" ("g" | "g:"sched) reuse nmembers member*     a batch group: nmembers Db.Batch calls coalesced by bbolt into one batch
+  member:= "mb" faultInv faultPos nsteps step*   the function returns an error on its faultInv-th invocation (0: never) after faultPos steps
+  sched := ("R" | "S"k) ("." ("R" | "S"k))*    observed order of the group's bbolt transactions: a round of the batch / the solo re-run of member k
   step  := "op" swallow fault op | "fail" tag | "fail1" tag (fails the first time the body executes it only) | "ac" tag | "ap" tag fails | "nb" | "nB" | "ne" | "sys"
            (nb / nB: nested Db.Update / Db.Batch with the bound context; sys: switch to the system context)
   fault := "-" | "lP"n | "lC"n | "pP"n | "pC"n
@@ -297,6 +300,41 @@ def txSpec : P TxSpec := fun ts => do
     let (body, ts) ← counted step ts
     pure ({ mode := mode, reuseCtx := reuse, body := body }, ts)
 
+def schedTok (t : String) : Option Sched :=
+  if t = "R" then some .round
+  else if t.startsWith "S" then (t.drop 1).toString.toNat?.map Sched.solo
+  else none
+
+def member : P Member := fun ts => do
+  let (t, ts) ← tok ts
+  if t ≠ "mb" then none
+  else
+    let (fi, ts) ← nat ts
+    let (fp, ts) ← nat ts
+    let (body, ts) ← counted step ts
+    pure ({ body := body, faultInv := fi, faultPos := fp, faultTag := 0 }, ts)
+
+/-- the error tag of member k's injected fault on its n-th invocation -/
+def faultTagOf (k n : Nat) : Nat := 900 + 10 * k + n
+
+def tagMembers : Nat → List Member → List Member
+  | _, [] => []
+  | k, m :: rest => { m with faultTag := faultTagOf k m.faultInv } :: tagMembers (k + 1) rest
+
+def hItem : P HItem := fun ts => do
+  match ts with
+  | "tx" :: m :: rest =>
+    if m = "g" || m.startsWith "g:" then do
+      let sched ← (if m = "g" then some none
+        else (((m.drop 2).toString.splitOn ".").mapM schedTok).map some : Option (Option (List Sched)))
+      let (reuse, ts) ← flag rest
+      let (ms, ts) ← counted member ts
+      pure (.group { reuseCtx := reuse, members := tagMembers 0 ms, sched := sched }, ts)
+    else do
+      let (t, ts) ← txSpec ts
+      pure (.tx t, ts)
+  | _ => none
+
 structure Case where
   regsP : List Reg
   regsC : List Reg
@@ -308,7 +346,7 @@ structure Case where
   onceP : List Nat
   onceC : List Nat
   onceD : List Nat
-  txs : List TxSpec
+  txs : List HItem
 
 def parseCase (line : String) : Option Case := do
   let ts := line.splitOn " "
@@ -336,7 +374,7 @@ def parseCase (line : String) : Option Case := do
       else pure ((([], []), [], t), ts) : Option (((List Reg × List Nat) × List IxReg × String) × List String))
     if t ≠ "T" then none
     else
-      let (txs, ts) ← counted txSpec ts
+      let (txs, ts) ← counted hItem ts
       if ts.isEmpty then
         pure { regsP := rp, regsC := rc, txListeners := txl, ixP := ixp, ixC := ixc, regsD := rd, ixD := ixd,
                onceP := op, onceC := oc, onceD := od, txs := txs }
@@ -531,13 +569,64 @@ def renderSpecTx (env : Env) (before : Db) (o : Spec.SpecOut) : String :=
        "sync=" ++ renderList (sortStr (syncLog env o.fired)), "async=" ++ renderList (sortStr (asyncLog env o.fired)),
        "ca=" ++ renderList (sortStr (commitActionLog o.fired)), "dump=" ++ renderDump before o.db]
 
-def renderCase (env : Env) : Db → List TxOut → List String
-  | _, [] => []
-  | db, o :: rest => renderTx env db o :: renderCase env o.db rest
+/-! ### batch groups -/
 
-def renderSpecCase (env : Env) : Db → List Spec.SpecOut → List String
+def txLabel (t : GTx) : String :=
+  if t.solo then "S" ++ (match t.parts with | p :: _ => toString p.member | [] => "?") else "R"
+
+def renderSeq (t : GTx) : String :=
+  (if t.solo then txLabel t else "R" ++ ".".intercalate (t.invoked.map toString)) ++ (if t.committed then "+" else "-")
+
+/-- the synchronous callbacks of one member's segment of the OnCommit list; a tx-complete listener is handed the
+    member's MutateContext, so the harness can tell for which member it runs -/
+def partSync (env : Env) (label : String) (p : Part) : List String :=
+  (syncLog env p.out.fired).map fun e =>
+    label ++ "@" ++ (if e.startsWith "X." then e ++ ".m" ++ toString p.member else e)
+
+def groupSync (env : Env) (txs : List GTx) : List String :=
+  (txs.filter (·.committed)).flatMap fun t => t.parts.flatMap (partSync env (txLabel t))
+
+def groupFired (txs : List GTx) : List Fired := txs.flatMap GTx.fired
+
+def groupResults (n : Nat) (s : GState) (kinds : Bool) : String :=
+  "+".intercalate ((List.range n).map fun k =>
+    match s.result k with
+    | none => "none"
+    | some .ok => "ok"
+    | some (.err e) => if kinds then "err:" ++ renderErr e else "err")
+
+def allParts (s : GState) : List Part := s.txs.flatMap (·.parts)
+
+/-- full observation of a batch group (what the harness prints for the implementation) -/
+def renderGroup (env : Env) (before : Db) (n : Nat) (s : GState) : String :=
+  let inexact := s.txs.any fun t => t.committed && t.parts.any (·.out.inexact)
+  let dump := if inexact then "inexact" else renderDump before s.db
+  " ".intercalate
+    ["g=" ++ toString n, "r=" ++ groupResults n s true, "same=" ++ b01 (dumpLeaves before == dumpLeaves s.db),
+     "runs=" ++ "+".intercalate ((List.range n).map fun k => toString (s.invs k)),
+     "seq=" ++ renderList (s.txs.map renderSeq),
+     "pre=" ++ renderList ((allParts s).flatMap fun p => p.out.preLog.map renderLog),
+     "pa=" ++ renderList ((allParts s).flatMap fun p => p.out.preRan.map toString),
+     "sync=" ++ renderList (groupSync env s.txs), "async=" ++ renderList (sortStr (asyncLog env (groupFired s.txs))),
+     "ca=" ++ renderList (sortStr (commitActionLog (groupFired s.txs))), "dump=" ++ dump]
+
+def renderSpecGroup (env : Env) (before : Db) (n : Nat) (s : GState) : String :=
+  if (allParts s).any (fun p => !p.out.specified) then "unspecified"
+  else
+    " ".intercalate
+      ["g=" ++ toString n, "r=" ++ groupResults n s false, "same=" ++ b01 (dumpLeaves before == dumpLeaves s.db),
+       "sync=" ++ renderList (sortStr (groupSync env s.txs)), "async=" ++ renderList (sortStr (asyncLog env (groupFired s.txs))),
+       "ca=" ++ renderList (sortStr (commitActionLog (groupFired s.txs))), "dump=" ++ renderDump before s.db]
+
+def renderHist (env : Env) : Db → List HOut → List String
   | _, [] => []
-  | db, o :: rest => renderSpecTx env db o :: renderSpecCase env o.db rest
+  | db, .tx o :: rest => renderTx env db o :: renderHist env o.db rest
+  | db, .group n s :: rest => renderGroup env db n s :: renderHist env s.db rest
+
+def renderSpecHist (env : Env) : Db → List SOut → List String
+  | _, [] => []
+  | db, .tx o :: rest => renderSpecTx env db o :: renderSpecHist env o.db rest
+  | db, .group n s :: rest => renderSpecGroup env db n s :: renderSpecHist env s.db rest
 
 def modelLine (t : CrudReturns) (line : String) : String :=
   match parseCase line with
@@ -546,13 +635,13 @@ def modelLine (t : CrudReturns) (line : String) : String :=
     if !t.recognised then "model-unknown"
     else
       let env : Env := { regsP := c.regsP, regsC := c.regsC, txListeners := c.txListeners, t := t, ixP := c.ixP, ixC := c.ixC, regsD := c.regsD, ixD := c.ixD, onceP := c.onceP, onceC := c.onceC, onceD := c.onceD }
-      " | ".intercalate (renderCase env [] (runCase env c.txs [] Ctx.empty))
+      " | ".intercalate (renderHist env [] (runHist env c.txs [] Ctx.empty))
 
 def specLine (line : String) : String :=
   match parseCase line with
   | none => "bad-case"
   | some c =>
     let env : Env := { regsP := c.regsP, regsC := c.regsC, txListeners := c.txListeners, t := expectedReturns, ixP := c.ixP, ixC := c.ixC, regsD := c.regsD, ixD := c.ixD, onceP := c.onceP, onceC := c.onceC, onceD := c.onceD }
-    " | ".intercalate (renderSpecCase env [] (Spec.specCase env c.txs [] Ctx.empty))
+    " | ".intercalate (renderSpecHist env [] (specHist env c.txs [] Ctx.empty))
 
 end StorageModel.Tx.Wire
